@@ -41,6 +41,13 @@ def run(rep, tier):
         w = prog.async_body(cands[0]) or cands[0]
     ix.wrapper_flush_rules(rep, "R10.2", prog, w, "InnerBTree::flush_inner", r"BTreeIndex::<PK, FV>::flush_owned_with$")
 
+    # the dirty flag of a bucket is cleared only if the bucket was not modified while its snapshot was being written
+    g = prog.fn(BI + "::mark_bucket_snapshot_saved")
+    rep.saw(g, len(g.events))
+    rb = [b for b in g.live_blocks() for st in g.stmts(b) if st[0] == "A" and st[1].get("p") and isinstance(st[1]["p"][-1], dict)
+          and st[1]["p"][-1].get("n") == "1" and st[2]["k"] == "use" and (core.op_const(st[2]["o"]) or {}).get("int") == "0"]
+    ix.retire_under_equality(rep, "R10.2", g, "mark_bucket_snapshot_saved", rb, {"3"}, "clearing a bucket's dirty flag")
+
     rep.rule("R10.3", "ordered key set changed only under its write lock with the posting map re-checked inside; empty postings removed atomically (remove_if)", floor=6)
     for name in ("insert", "insert_array"):
         f = prog.fn(BI + "::" + name)
